@@ -12,7 +12,9 @@ RULE = ("random, jittered-lattice, exactly square and exactly hexagonal centre s
         "max_distance from tight to infinite; non-trivial = at least 3 cells; distinct = the centre set and cut-off")
 TRUSTED = ["Model/Tessellation.v (vertex / edge interning, signed cell key, reversal) tied to tessellation.create_lattice_elements / "
            "create_lattice by exact correspondence; Qhull (scipy.spatial.Voronoi) is an oracle: the harness calls it with the same "
-           "centres and hands its regions to the model; round() is an oracle",
+           "centres and hands its regions to the model",
+           "Model/Round.v ridge_vertex (numpy's rounding of Qhull's corner, the line through the rounded ends, rounding of the ordinate; binary64) tied bit for bit to the two lattice points "
+           "create_lattice_elements makes for every ridge of every kept region, rounding ties and near-degenerate corners included",
            "Model/RegionFilter.v tied exactly (over Q, squared distances) to tessellation.remove_infinite_regions on Qhull's regions and vertices; cut-offs "
            "within 1e-9 of a region's diameter are skipped"]
 ASSUMPTIONS = ["regions in which two consecutive corners round to the same point (zero-length ridge after rounding) are not judged"]
